@@ -318,6 +318,12 @@ func c08Gen(r *rand.Rand, n int, tier string) []string {
 				}
 				pts = append(pts, fmt.Sprintf("%s,%s,%s,%s,%d,0,%s,-", hxs(ty), hxs(key), valStr(float64(r.Intn(20))), hxs(pick(r, []string{"", "t", "uv"})), tick(), hxs(origin)))
 			}
+			if r.Intn(8) == 0 {
+				// a batch the store refuses (a not-a-number value somewhere in it): the writer gets an error, nothing is
+				// stored, and no client may be told of any point of it
+				pts = append(pts, fmt.Sprintf("%s,-,nan,-,%d,0,%s,-", hxs("value"), tick(), hxs(origin)))
+				r.Shuffle(len(pts), func(a, b int) { pts[a], pts[b] = pts[b], pts[a] })
+			}
 			if r.Intn(6) == 0 { // edge points that are not life-cycle points
 				par := parentOf[target]
 				obs = append(obs, "ep:"+hxs(target)+":"+hxs(par)+":"+fmt.Sprintf("%s,-,0,%s,%d,0,%s,-", hxs("role"), hxs(pick(r, []string{"a", "b"})), tick(), hxs(origin)))
